@@ -12,12 +12,17 @@ Property oracle (independent of the model): see `oracle`.
 """
 from __future__ import annotations
 
+import atexit
 import json
 import os
 import queue
+import shutil
+import tempfile
 import sys
 import threading
 import time
+
+os.environ.setdefault("OPENCV_LOG_LEVEL", "SILENT")   # cv2 logs every unreadable image file
 
 from common import Check, run_check, import_repo, run_driver, CORPUS
 
@@ -254,6 +259,92 @@ class FakeVideo:
         return np.full((h, w, 1), self.pix(self.vidx, i), dtype=np.uint8)
 
 
+class ImgSeqPool:
+    """PNG files for image-sequence `sio.Video`s (`filename` is a LIST of paths, backend
+    `ImageVideo`), created lazily in a temporary directory that is removed at exit.  A frame file is
+    a constant grayscale image carrying its pixel id; `bad("corrupt")` is a file that is not an
+    image, `bad("missing")` a path that does not exist — the real backend raises on both."""
+
+    def __init__(self):
+        self.dir = None
+        self.have = set()
+
+    def _root(self):
+        if self.dir is None:
+            self.dir = tempfile.mkdtemp(prefix="verif_c13_imgseq_")
+            atexit.register(shutil.rmtree, self.dir, True)
+        return self.dir
+
+    def frame(self, pix, h, w):
+        path = os.path.join(self._root(), f"p{pix}_{h}x{w}.png")
+        if path not in self.have:
+            import imageio.v3 as iio
+            import numpy as np
+
+            iio.imwrite(path, np.full((h, w), pix, dtype=np.uint8))
+            self.have.add(path)
+        return path
+
+    def bad(self, how):
+        path = os.path.join(self._root(), "corrupt.png" if how == "corrupt" else "missing.png")
+        if how == "corrupt" and path not in self.have:
+            with open(path, "wb") as fh:
+                fh.write(b"this is not a PNG file")
+            self.have.add(path)
+        return path
+
+
+POOL = ImgSeqPool()
+
+
+class SchedVideo:
+    """A REAL `sio.Video` (image sequence) whose frame reads are scheduling points of thread P;
+    everything else (`filename`, `shape`, `backend`, …) is the real object's."""
+
+    def __init__(self, real, vidx, n, sched, counter, fail_pos, by_index):
+        self.__dict__.update(real=real, vidx=vidx, n=n, s=sched, counter=counter, fail_pos=fail_pos,
+                             by_index=by_index)
+
+    def __getattr__(self, name):
+        return getattr(self.__dict__["real"], name)
+
+    def __len__(self):
+        return self.n
+
+    def __getitem__(self, i):
+        i = int(i)
+        pos = i if self.by_index else self.counter.pos
+        self.counter.pos += 1
+        bad = (self.fail_pos is not None and pos == self.fail_pos) or not (0 <= i < self.n)
+        if self.s is not None:
+            self.s.park("P", ("readX." if bad else "read.") + f"{self.vidx}.{i}", lambda: True)
+        return self.real[i]       # the real backend raises on the corrupt / missing file or index
+
+
+def imgseq_video(vidx, n, size, bad_index, how, sched, counter, fail_pos, by_index):
+    """Image-sequence video of `n` frames (pixel id `(7 i + vidx) % 251`), frame `bad_index`
+    replaced by a corrupt / missing file."""
+    sio = env()["sio"]
+    h, w = size
+    paths = [POOL.frame(FakeVideo.pix(vidx, i), h, w) for i in range(n)]
+    if bad_index is not None and 0 <= bad_index < n:
+        paths[bad_index] = POOL.bad(how)
+    return SchedVideo(sio.Video.from_filename(paths), vidx, n, sched, counter, fail_pos, by_index)
+
+
+def imgseq_ok(case) -> bool:
+    """An image-sequence source can realise the case: uniform size per video, and the bad file is
+    not the first image of its list (sleap-io needs a readable first image for every read)."""
+    if case["kind"] == "video":
+        return len(case["sizes"]) == 1 and case["k"] != 0 and case["n"] >= 1
+    if any(len(sz) != 1 for sz in case["vsizes"]):
+        return False
+    k = case["k"]
+    if k is not None and 0 <= k < len(case["frames"]) and case.get("fail_kind") != "empty_instances":
+        return case["frames"][k][1] != 0
+    return True
+
+
 _ENV = {}
 
 
@@ -382,15 +473,29 @@ def build_reader(case, s, q):
     E = env()
     np, sio = E["np"], E["sio"]
     exc = case.get("exc") or "OSError"
+    imgseq = case.get("src") == "imgseq" and imgseq_ok(case)
+    how = case.get("bad_file") or "corrupt"
     if case["kind"] == "video":
         start = 0 if case["start"] is None else case["start"]
-        fv = FakeVideo(0, case["n"], [tuple(x) for x in case["sizes"]], s, ReadCounter(start),
-                       case["k"], True, exc=exc)
+        if imgseq:
+            fv = imgseq_video(0, case["n"], tuple(case["sizes"][0]), case["k"], how, s,
+                              ReadCounter(start), case["k"], True)
+        else:
+            fv = FakeVideo(0, case["n"], [tuple(x) for x in case["sizes"]], s, ReadCounter(start),
+                           case["k"], True, exc=exc)
         return E["VideoReader"](fv, q, case["start"], case["stop"])
     ctr = ReadCounter(0)
-    vids = [FakeVideo(v, 64, [tuple(x) for x in sz], s, ctr, case["k"], False,
-                      raises=case.get("fail_kind") != "empty_instances", exc=exc)
-            for v, sz in enumerate(case["vsizes"])]
+    if imgseq:
+        k = case["k"]
+        hit = (case["frames"][k] if k is not None and 0 <= k < len(case["frames"])
+               and case.get("fail_kind") != "empty_instances" else None)
+        vids = [imgseq_video(v, 20, tuple(sz[0]), hit[1] if hit and hit[0] == v else None, how, s, ctr,
+                             case["k"], False)
+                for v, sz in enumerate(case["vsizes"])]
+    else:
+        vids = [FakeVideo(v, 64, [tuple(x) for x in sz], s, ctr, case["k"], False,
+                          raises=case.get("fail_kind") != "empty_instances", exc=exc)
+                for v, sz in enumerate(case["vsizes"])]
     ninst = case.get("ninst") or [1] * len(case["frames"])
     lfs = []
     for pos, (v, f) in enumerate(case["frames"]):
@@ -473,9 +578,10 @@ def run_impl(case, timeout: float = HANG_TIMEOUT) -> dict:
     p_alive_at_verdict = orig_alive()
     if status != "done":
         s.abort()
-    ct.join(s.timeout)
+    grace = s.timeout if status == "done" else 5.0   # aborted threads unwind at once or are stuck for good
+    ct.join(grace)
     if rd.ident is not None:
-        orig_join(s.timeout)
+        orig_join(grace)
     if stat["p"] == "not-started" and status == "done":
         stat["p"] = "never-started"
     return {
@@ -616,6 +722,9 @@ def rand_extras(rng, case) -> dict:
     """Consumer-side variants (all inside the property's domain)."""
     if case["k"] is not None:
         case["exc"] = rng.choice(sorted(EXC))
+    if rng.random() < 0.3:       # real image-sequence sio.Video (filename is a list of paths)
+        case["src"] = "imgseq"
+        case["bad_file"] = rng.choice(["corrupt", "corrupt", "missing"])
     if rng.random() < 0.12:
         case["is_rgb"] = True
     if rng.random() < 0.2:
@@ -694,12 +803,14 @@ def small_grid(thorough: bool):
 
 def grid_case(kind, cap, B, start, n, k, sched) -> dict:
     exc = None if k is None else sorted(EXC)[(cap + 2 * B + 3 * n + 5 * k + len(sched)) % len(EXC)]
+    src = {"src": "imgseq", "bad_file": "missing" if (cap + n) % 3 == 0 else "corrupt"} \
+        if (cap + B + n + (k or 0) + len(sched)) % 2 == 0 else {}
     if kind == "video":
         return {"kind": "video", "cap": cap, "B": B, "n": start + n + 1, "start": start,
-                "stop": start + n, "k": k, "sizes": [[6, 8]], "sched": sched, "exc": exc}
+                "stop": start + n, "k": k, "sizes": [[6, 8]], "sched": sched, "exc": exc, **src}
     frames = [[0, 3], [1, 0], [0, 9], [1, 4]][:n]
     return {"kind": "labels", "cap": cap, "B": B, "frames": frames,
-            "vsizes": [[[6, 8]], [[5, 9]]], "k": k, "sched": sched, "exc": exc}
+            "vsizes": [[[6, 8]], [[5, 9]]], "k": k, "sched": sched, "exc": exc, **src}
 
 
 def case_key(case, eff):
@@ -717,7 +828,11 @@ def tags_of(case, r):
         t.append("fail-first" if k == start else "fail-last" if k == stop - 1 else "fail-mid")
         t.append("exc=" + ("ValueError(np.stack)" if case.get("fail_kind") else
                            "IndexError(past-end)" if case["kind"] == "video" and k >= case["n"]
+                           else f"ValueError(imgseq-{case.get('bad_file') or 'corrupt'})"
+                           if case.get("src") == "imgseq" and imgseq_ok(case)
                            else case.get("exc") or "OSError"))
+        if case.get("src") == "imgseq" and imgseq_ok(case) and not case.get("fail_kind"):
+            t.append("imgseq-fail-" + ("first" if k == start else "last" if k == stop - 1 else "mid"))
     else:
         t.append("no-fail")
     if case["kind"] == "video":
@@ -745,6 +860,8 @@ def tags_of(case, r):
             t.append("multi-instance")
             if case.get("instances_key"):
                 t.append("instances-key-nan-padding")
+    if case.get("src") == "imgseq" and imgseq_ok(case):
+        t.append("src=image-sequence(filename-is-list)")
     if case.get("instances_key"):
         t.append("instances-key")
     if case.get("fail_kind"):
@@ -780,7 +897,7 @@ def shrink(case, fails):
             cands.append({**c, "B": c["B"] - 1})
         if c["cap"] > 1:
             cands.append({**c, "cap": 1})
-        for key in ("rec_mode", "is_rgb", "lazy_model", "preprocess", "ninst"):
+        for key in ("rec_mode", "is_rgb", "lazy_model", "preprocess", "ninst", "src"):
             if c.get(key):
                 cands.append({kk: vv for kk, vv in c.items() if kk != key})
         if c["kind"] == "video":
@@ -845,6 +962,8 @@ def consumer_abort_limit(chk: Check):
         out[how] = {"status": r["status"], "reader_alive_blocked_in_put": stuck, "consumer": r["c"][:40]}
         if not stuck:
             print(f"NOTE: consumer-abort limit ({how}) no longer reproduces: {r['status']}")
+            if r["status"].startswith("hang"):
+                break
     chk.extra["consumer_abort_limit"] = {"lean": "SleapVerif.C13.reader_always_ends_counterexample", **out}
     chk.tag("limit-replay:consumer-abort")
 
@@ -908,7 +1027,8 @@ def glue_smoke(chk: Check):
         ct = threading.Thread(target=consume, daemon=True)
         ct.start()
         ct.join(2 * HANG_TIMEOUT)
-        if ct.is_alive() or stat.get("c") != "finished":
+        hung = ct.is_alive()
+        if hung or stat.get("c") != "finished":
             errs.append(f"consumer did not finish: {stat.get('c', 'hang')}")
         if rd.is_alive():
             errs.append("reader thread still alive")
@@ -922,6 +1042,8 @@ def glue_smoke(chk: Check):
         res.append({**case, "ok": not errs})
         if errs:
             chk.fail("glue smoke (make_pipeline → from_filename → _predict_generator) fails", case, errs, ())
+            if hung:
+                break
     chk.extra["glue_smoke"] = res
 
 
@@ -979,14 +1101,18 @@ def main(chk: Check):
 
     model_out = run_driver("C13.lean", [driver_line(c) for c in cases])
     # warm-up (lazy torch/torchvision initialisation happens inside the consumer thread): not counted
-    run_impl({"kind": "video", "cap": 2, "B": 2, "n": 3, "start": 0, "stop": 3, "k": None,
-              "sizes": [[6, 8]], "sched": "PC", "is_rgb": True}, 5 * HANG_TIMEOUT)
-    glue_smoke(chk)
-    consumer_abort_limit(chk)
+    # A hang verdict costs minutes of wall clock (timeout + confirmation); after the first one
+    # nothing else is explored, so a tree that hangs is reported within ~3 min.
+    warm = {"kind": "video", "cap": 2, "B": 2, "n": 3, "start": 0, "stop": 3, "k": None,
+            "sizes": [[6, 8]], "sched": "PC", "is_rgb": True}
+    w = run_impl(warm, 2 * HANG_TIMEOUT)
     hangs = 0
+    if w["status"].startswith("hang"):
+        hangs = 1
+        chk.fail("property oracle fails on the implementation (warm-up case)", warm, oracle(warm, w), ())
     disagreeing = []
     for case, m in zip(cases, model_out):
-        if hangs >= 1:     # a confirmed hang costs minutes; one replay is enough
+        if hangs >= 1:     # one replay is enough
             break
         r = run_checked(case)
         if r["status"].startswith("hang"):
@@ -1002,6 +1128,9 @@ def main(chk: Check):
             chk.fail("property oracle fails on the implementation", case, errs, ())
         if len(chk.failing) >= 3 or len(chk.disagreements) >= 12:
             break
+    if hangs == 0:
+        glue_smoke(chk)
+        consumer_abort_limit(chk)
 
     # 4. failing-input search around disagreements that did not themselves violate the property
     if chk.disagreements and not chk.failing:
@@ -1024,7 +1153,7 @@ def main(chk: Check):
                 break
         chk.extra["search_cases"] = tried
     # shrink what was found (the replay carries the schedule string)
-    if chk.failing:
+    if chk.failing and "sched" in chk.failing[0]["case"] and hangs == 0:
         f0 = chk.failing[0]
         try:
             small = shrink(f0["case"], lambda c: bool(oracle(c, run_impl(c))))
